@@ -18,6 +18,10 @@
 (*    the order of Python strings (code points), stated here on the part   *)
 (*    of the name that follows the model name.                             *)
 (*                                                                         *)
+(*  - BIOGEME.files_of_type(extension): the files of THIS model with the   *)
+(*    extension; the output files of a model are named after it (name.ext, *)
+(*    name~xx.ext), so a name tells whose file it is (IsFileOf below).     *)
+(*                                                                         *)
 (* A directory is seen through the set of names it holds.                  *)
 (***************************************************************************)
 EXTENDS Integers, Sequences, FiniteSets, TLC
@@ -77,6 +81,55 @@ LastFrom(S, best) == IF S = {} THEN best
                      ELSE LET x == CHOOSE x \in S : TRUE
                           IN  IF PyBefore(best, x) THEN LastFrom(S \ {x}, x) ELSE LastFrom(S \ {x}, best)
 LastSorted(ks) == LET x == CHOOSE x \in ks : TRUE IN LastFrom(ks \ {x}, x)
+
+(* ---------------- whose file is it: the naming scheme read backwards ---------------- *)
+\* A file name carries the name of the model (data set, ...) it belongs to: the files of model m with
+\* extension e are  m.e  and the numbered versions  m~NN.e  (NN as get_new_file_name writes it: two
+\* digits, more only beyond 99 and then without a leading zero) -- and nothing else.  In particular
+\* neither mode_price.pickle, nor mode_validation.pickle, nor mode~v2.pickle, nor mode~00~00.pickle
+\* (the second pickle of a model named mode~00) is a file of model "mode".
+Digits == {"0", "1", "2", "3", "4", "5", "6", "7", "8", "9"}
+DigitVal == [c \in Digits |-> CASE c = "0" -> 0 [] c = "1" -> 1 [] c = "2" -> 2 [] c = "3" -> 3 [] c = "4" -> 4
+                                 [] c = "5" -> 5 [] c = "6" -> 6 [] c = "7" -> 7 [] c = "8" -> 8 [] c = "9" -> 9]
+Char(s, i) == SubSeq(s, i, i)
+HasPrefix(n, p) == Len(p) <= Len(n) /\ SubSeq(n, 1, Len(p)) = p
+HasSuffix(n, s) == Len(s) <= Len(n) /\ SubSeq(n, Len(n) - Len(s) + 1, Len(n)) = s
+IsNumberField(s) == /\ Len(s) >= 2
+                    /\ \A i \in 1..Len(s) : Char(s, i) \in Digits
+                    /\ (Len(s) = 2 \/ Char(s, 1) # "0")
+RECURSIVE NumberOf(_)
+NumberOf(s) == IF s = "" THEN 0 ELSE 10 * NumberOf(SubSeq(s, 1, Len(s) - 1)) + DigitVal[Char(s, Len(s))]
+\* what stands between the model name and ".ext" ("" when n is not of the form m<something>.e)
+Middle(n, m, e) == SubSeq(n, Len(m) + 1, Len(n) - Len(e) - 1)
+IsFileOf(n, m, e) ==
+    /\ Len(n) >= Len(m) + Len(e) + 1
+    /\ HasPrefix(n, m)
+    /\ HasSuffix(n, "." \o e)
+    /\ LET mid == Middle(n, m, e)
+       IN  mid = "" \/ (Len(mid) >= 3 /\ Char(mid, 1) = "~" /\ IsNumberField(SubSeq(mid, 2, Len(mid))))
+\* the lookup "the files of model m with extension e" (BIOGEME.files_of_type, estimate(recycle=True))
+FilesOf(names, m, e) == {n \in names : IsFileOf(n, m, e)}
+\* candidate index of a file of (m, e): Cand(m, e, IndexOf(n, m, e)) = n
+IndexOf(n, m, e) == LET mid == Middle(n, m, e) IN IF mid = "" THEN 0 ELSE NumberOf(SubSeq(mid, 2, Len(mid))) + 1
+FoundIdx(names, m, e) == {IndexOf(n, m, e) : n \in FilesOf(names, m, e)}
+\* the seeded lookup defect (negative control): everything that starts with the model name
+LooseFilesOf(names, m, e) == {n \in names : HasPrefix(n, m) /\ HasSuffix(n, "." \o e)}
+
+ASSUME /\ \A k \in 0..120 : IsFileOf(Cand("mode", "pickle", k), "mode", "pickle")
+                            /\ IndexOf(Cand("mode", "pickle", k), "mode", "pickle") = k
+       /\ ~IsFileOf("mode_price.pickle", "mode", "pickle") /\ ~IsFileOf("mode_price~00.pickle", "mode", "pickle")
+       /\ IsFileOf("mode_price~00.pickle", "mode_price", "pickle")
+       /\ ~IsFileOf("mode.pickle", "mode_price", "pickle") /\ ~IsFileOf("mode.pickle", "mode", "html")
+       /\ ~IsFileOf("m_validation.pickle", "m", "pickle") /\ ~IsFileOf("m_val_est_1~00.pickle", "m", "pickle")
+       /\ ~IsFileOf("mode~v2.pickle", "mode", "pickle") /\ ~IsFileOf("mode~7.pickle", "mode", "pickle")
+       /\ ~IsFileOf("mode~007.pickle", "mode", "pickle") /\ ~IsFileOf("mode~.pickle", "mode", "pickle")
+       /\ ~IsFileOf("mode~00~00.pickle", "mode", "pickle") /\ IsFileOf("mode~00~00.pickle", "mode~00", "pickle")
+       /\ ~IsFileOf("mode_1.pickle", "mode", "pickle") /\ ~IsFileOf("xmode.pickle", "mode", "pickle")
+       /\ ~IsFileOf("mode.pickle.bak", "mode", "pickle") /\ ~IsFileOf("mode", "mode", "pickle")
+       /\ FilesOf({"m.pickle", "m~00.pickle", "m~02.pickle", "m_validation.pickle", "m_val_est_1.pickle", "mx.pickle", "m.html"},
+                  "m", "pickle") = {"m.pickle", "m~00.pickle", "m~02.pickle"}
+       /\ FoundIdx({"m.pickle", "m~02.pickle", "m~100.pickle", "m_2.pickle"}, "m", "pickle") = {0, 3, 101}
+       /\ LooseFilesOf({"m.pickle", "m_validation.pickle", "m.html", "n.pickle"}, "m", "pickle") = {"m.pickle", "m_validation.pickle"}
 
 ASSUME /\ PyBefore(0, 1)            \* "m.pickle"    < "m~00.pickle"
        /\ PyBefore(1, 2)            \* "m~00.pickle" < "m~01.pickle"
